@@ -35,6 +35,12 @@ func impliedAtoms(cond ast.Expr, val bool) []atomCond {
 			return nil
 		}
 	}
+	// a one-line boolean helper stands for what it returns (ref.isLeaf(), sortsBefore(a, b))
+	if call, ok := cond.(*ast.CallExpr); ok && predicateExpander != nil {
+		if ex := predicateExpander(call); ex != ast.Expr(call) {
+			return impliedAtoms(ex, val)
+		}
+	}
 	return []atomCond{{cond, val}}
 }
 
